@@ -17,9 +17,9 @@ CHECKS = {
   "ref": "DESIGN.md 7/C15",
  },
  "C05": {
-  "text": "Lean theorem norm_ser: for every graph and every serialisation plan (node and key order, bare value vs one-element array, @type string vs array, {@value} vs scalar, repeated values and classes, nodes embedded to any depth carrying any subset of their triples, nodes split over several occurrences, top-level array / @graph / single object) the normalisation model yields an index set-equal to the graph's canonical index; corollaries reserialisation_invariant, equiv_targets and reserialisation_same_reads (every target_class / find / property read of the policy sees the same set). The model is tied to the real Index(Normalize(.)) on generated serialisations; @context/@base documents are tied metamorphically (same index, same verdicts).",
-  "note": "Partial: json-gold outside the modelled fragment (contexts, @list, @language, typed literals, @reverse, blank nodes) is not modelled. Trusted: Lean kernel; the JSON-to-Js conversion in the driver.",
-  "technique": "Lean 4 proof (mutual structural induction over serialisation plans; set reasoning on extracted triples) + differential and metamorphic correspondence with json-gold based normalisation",
+  "text": "Lean theorem norm_ser: for every graph and every serialisation plan (node and key order, bare value vs one-element array, @type string vs array, {@value} vs scalar, repeated values and classes, nodes embedded to any depth carrying any subset of their triples, nodes split over several occurrences, top-level array / @graph / single object) the normalisation model yields an index set-equal to the graph's canonical index; norm_ser_ctx extends it to documents with an @context: every IRI occurrence independently written in full, as prefix:suffix for a declared prefix, relative to @base (ids) or to @vocab (keys, classes) - expand_spelling proves that expansion undoes every such spelling under explicit decidable side conditions on the context (each with a concrete counterexample, e.g. a prefix named `urn`); corollaries renderings_agree / reserialisation_invariant(_ctx), equiv_targets and reserialisation_same_reads (every target_class / find / property read of the policy sees the same set for any two documents of the same graph, with or without contexts). The model (normC) is tied to the real Index(Normalize(.)) on every generated serialisation, context-free or not; verdict equality is checked metamorphically on top.",
+  "note": "Partial: json-gold outside the modelled fragment (@list, @language, typed literals, @reverse, blank nodes, scoped / array / remote contexts, expanded term definitions) is not modelled; Go's url.Parse is modelled conservatively (three-valued goAbs), tied only differentially. Trusted: Lean kernel; the JSON-to-Js conversion in the driver.",
+  "technique": "Lean 4 proof (mutual structural induction over serialisation plans; set reasoning on extracted triples; IRI expansion inverts compaction) + differential and metamorphic correspondence with json-gold based normalisation",
   "ref": "DESIGN.md 7/C05",
  },
  "C06": {
